@@ -9,13 +9,33 @@ C02 — Output is exactly the encoded instruction stream of the source.
   big-endian bytes holding the operand's value, left-padded with zeros; the
   value is in range (never wrapped or truncated).
 * `C02_bytesBE`: the big-endian digits denote the value and are minimal.
-Partial: independence of the output from the random label suffixes and the
-layout clause about blank lines / comments / `;` (a statement about the pest
-interpreter over the generated grammar) are checked by the correspondence run
-(every case is assembled twice; every program is rendered in random legal
-layouts) and are not theorems.
+* `C02_suffix_independent`: "assembling the same sources again yields the same
+  bytes" — the random suffixes drawn for macro-local labels do not influence the
+  output: two runs with ANY two suffix sources that are fresh for the program
+  (generated names of different draws differ and none is a label name of the
+  source text) return the same bytes.  Proof: a partial bijection on label names
+  (identity on the source's names, `mangle rnd j m l ↔ mangle rnd' j m l`) is
+  carried through expansion (`flatten_rel`), evaluation (`eval_rel`), layout and
+  emission (`assembleItems_rel`).
+* `C02_layout`, `C02_layout_bytes`: the LAYOUT clause ("comments, blank lines and
+  `;` separators contribute no bytes", "all legal layouts of whitespace / comments
+  / separators"), for programs over the full mnemonic set and every push width
+  with hex operands: whatever the decoration — blanks before and after each
+  statement, `#` comments with ANY body (also `;`, `%`, `:`, quotes, statements),
+  blank and comment-only lines (also before the first statement), LF or CRLF,
+  `;` separators, an unterminated last statement — the text parses (full pest
+  interpreter over the regenerated grammar + walk) to the same nodes as the bare
+  listing and assembles to exactly the concatenation of the instructions' bytes.
+  Unbounded runs of blanks and comment bodies are handled by induction on the
+  real interpreter (`LayoutSkip`), statement cores by the window interpreter
+  evaluated in the kernel per table row and per following character (`LayoutTable`).
+Not proved at text level: layouts of programs with labels, macros and directives
+(the correspondence run renders every generated program in random legal layouts).
 -/
 import EtkVerif.Asm.Corollaries
+import EtkVerif.Asm.SuffixIndep
+import EtkVerif.Asm.LayoutPest
+import EtkVerif.Asm.ListingAsm
 namespace EtkVerif.C02
 open Asm
 
@@ -37,5 +57,42 @@ theorem C02_bytesBE (n : Nat) :
     (∀ k, 1 ≤ k → n < 256 ^ k → (bytesBE n).length ≤ k) ∧
     (bytesBE n).foldl (fun acc b => acc * 256 + b) 0 = n ∧ (∀ b ∈ bytesBE n, b < 256) :=
   bytesBE_spec n
+
+/-- repeated runs: the bytes do not depend on the source of the random label suffixes, as long as it is fresh -/
+theorem C02_suffix_independent (rnd rnd' : Nat → Nat) (fuel k : Nat) (ops : RawOps) (bytes : List Nat) (k' : Nat)
+    (h : assemble rnd fuel { fresh := k } ops = .ok (bytes, k')) (hf : Fresh rnd ops) (hf' : Fresh rnd' ops) :
+    assemble rnd' fuel { fresh := k } ops = .ok (bytes, k') :=
+  suffix_independent rnd rnd' fuel k ops bytes k' h hf hf'
+
+/-- the freshness hypothesis is met by ordinary sources: any injective one, for a program whose label names have no underscore -/
+theorem C02_fresh_satisfiable (rnd : Nat → Nat) (hinj : ∀ a b, rnd a = rnd b → a = b) (ops : RawOps)
+    (hnames : ∀ n ∈ rawsNames ops, '_' ∉ n.toList) : Fresh rnd ops :=
+  fresh_of_injective rnd hinj ops hnames
+
+open Asm.Layout Asm.Listing in
+/-- layout insensitivity: the decoration never changes what is parsed -/
+theorem C02_layout (head : List BlankLine) (items : List Layout.Item) (h : Layout.WF head items) :
+    parseAsm (render head items) = .ok (items.map (fun x => nodeOf x.ins)) :=
+  parse_render head items h
+
+open Asm.Layout Asm.Listing in
+/-- … and never contributes a byte: the decorated text assembles to the concatenation of the instructions' encodings -/
+theorem C02_layout_bytes (rnd : Nat → Nat) (fuel : Nat) (head : List BlankLine) (items : List Layout.Item)
+    (h : Layout.WF head items) (hf : items.length + 2 ≤ fuel) :
+    parseAsm (render head items) = .ok ((items.map (·.ins)).map nodeOf) ∧
+    assemble rnd fuel {} (RawOps.ofList ((items.map (·.ins)).map rawOf)) = .ok ((items.map (·.ins)).flatMap Disasm.Instr.bytes, 0) := by
+  refine ⟨by rw [parse_render head items h, List.map_map]; rfl, ?_⟩
+  exact assemble_listing rnd fuel _ (by
+    intro i hi
+    obtain ⟨x, hx, rfl⟩ := List.mem_map.1 hi
+    exact (h.2.1 x hx).2.1) (by simpa using hf)
+
+open Asm.Layout in
+-- non-vacuity: a decorated program (leading comment line containing `; pc`, `push1 0x00 ;\t stop`, a comment made of
+-- a separator and a statement, CRLF, a blank line, an unterminated `push0` with a `;` comment) is well formed
+example : Layout.WF [⟨[32, 32], some [32, 59, 32, 112, 99], false⟩]
+    [⟨[32], ⟨0x60, [0]⟩, .semi [32] [9]⟩,
+     ⟨[], ⟨0x00, []⟩, .line [32] (some [59, 32, 103, 97, 115]) true [⟨[], none, false⟩]⟩,
+     ⟨[], ⟨0x5f, []⟩, .open_ [] (some [59])⟩] := by decide
 
 end EtkVerif.C02
